@@ -5,10 +5,16 @@
     declarative Occ(S,k,w) and window sets, for ALL sequences over {a,c,g,t,n,A} up to MaxLen, k in {2,3},
     all sub-ranges [start,end); word-level laws (Enc/Dec, Format, reverse complement, GC) for all words.
     Negative controls (watermark set one position early; inclusive prefix sum; missing mask) must be refuted.
+    spec/Kmer/KmerQueries.tla: the life of an index as a state machine - New reads the letters, Build, then any
+    history of queries (one word, all words, Check) and of writes by the caller into what it was handed; every
+    answer is a function of the indexed sequence only (LastAnswerExact, AnswersPure, action law HistoryFree).
+    Negative control: a query hands out a window of the position table and a caller's write changes a later answer.
 (B) TLC emits every sequence of that bounded model; the real code indexes them (the exported
     kmerindex.MinKmerLen lowered to k) and every answer - frequencies, positions of all 4^k words, maps,
     Check(), call-backs on all sub-ranges - is judged by KmerTrace.tla with the declarative operators; the
     internal finger/pos arrays are compared with the operational model (binding; differences are drift).
+    The driver uses the index as a caller may: it overwrites every element of every slice and map a query hands
+    out, then asks all the questions again; both rounds are judged against the same declarative answers.
 (C) exhaustive k=4 over {a,c,g,t,n}, random sequences up to several thousand letters, k in 4..10, both cases,
     runs of invalid letters; all words of small k through Format/KmerOf/ComplementOf/GCof.
 """
@@ -33,8 +39,7 @@ def _evaluations(e):
         return 4
     if e["op"] == "kmerof":
         return 1
-    return 2 + len(e["freq"]) + len(e["fq"]) + len(e["index"]) + len(e["sindex"]) + len(e["q"]) + len(e["qt"]) + \
-        len(e["ranges"])
+    return 4 + sum(len(e[f]) + len(e[f + "2"]) for f in ("freq", "fq", "index", "sindex", "q", "qt")) + len(e["ranges"])
 
 
 def _key(e):
@@ -122,7 +127,7 @@ class Judge:
 def _selftest(ck, work, events):
     """Binding self-test: corrupted records of the real run must be rejected, the originals accepted."""
     case = next((e for e in events if e["op"] == "case" and e["err"] == "" and e["index"] and
-                 any(r[3] for r in e["ranges"])), None)
+                 any(r[3] for r in e["ranges"]) and any(x[2] for x in e["q2"])), None)
     word = next((e for e in events if e["op"] == "word"), None)
     if case is None or word is None:
         raise vlib.Infra("self-test: no event to corrupt")
@@ -135,20 +140,33 @@ def _selftest(ck, work, events):
     c["fq"] = [[c["index"][0][0], len(c["index"][0][1]) + 1]]   # a frequency one too high
     d = json.loads(json.dumps(word))
     d["comp"] ^= 1
+    # second round only: what a caller wrote into an earlier answer shows up in a later one
+    f = json.loads(json.dumps(case))
+    f["index2"][0][1][0] = f["sentinel"]                        # KmerIndex asked again
+    g = json.loads(json.dumps(case))
+    i = next(i for i, x in enumerate(g["q2"]) if x[2])
+    g["q2"][i][2] = [g["sentinel"]] * len(g["q2"][i][2])        # one KmerPositions asked again
+    h = json.loads(json.dumps(case))
+    h["chkok2"], h["chkfound2"] = False, 0                      # Check() asked again
     p = os.path.join(work, "selftest.ndjson")
-    vlib.write_ndjson(p, [a, b, c, d, case, word])
+    vlib.write_ndjson(p, [a, b, c, d, f, g, h, case, word])
     v, r = vlib.validate("Kmer", "KmerTrace", "KmerTrace.cfg", p)
-    if [f[0] for f in v["fails"]] != [1, 2, 3, 4]:
+    if [x[0] for x in v["fails"]] != [1, 2, 3, 4, 5, 6, 7] or \
+            not all(x[1].startswith("asked again after the caller overwrote") for x in v["fails"][4:]):
         raise vlib.Infra("binding self-test failed: corrupted events accepted or originals rejected: %s" % v["fails"])
-    ck.parts.append({"part": "binding-selftest", "note": "4 corrupted events rejected, originals accepted: " +
-                     "; ".join(f[1][:60] for f in v["fails"])})
-    vlib.log("  [selftest] 4 corrupted events rejected by KmerTrace.tla, the 2 originals accepted")
+    ck.parts.append({"part": "binding-selftest", "note": "7 corrupted events rejected (3 of them in the second round of "
+                     "questions only), originals accepted: " + "; ".join(x[1][:60] for x in v["fails"][:4]) + "; " +
+                     "; ".join(x[1][80:140] for x in v["fails"][4:])})
+    vlib.log("  [selftest] 7 corrupted events rejected by KmerTrace.tla (3 of them wrong in the second round of "
+             "questions only), the 2 originals accepted")
 
 
 def run(ck, tier):
     thorough = tier == "thorough"
     ck.rule = ("a case is one (sequence, k) indexed by the real code with all its questions (frequencies, position maps, "
-               "single look-ups, Check, call-backs on sub-ranges), or one (k, word) through Format/KmerOf/ComplementOf/GCof; "
+               "single look-ups, Check, call-backs on sub-ranges; every slice and map handed out is overwritten by the "
+               "driver, then all questions are asked a second time and judged again), or one (k, word) through "
+               "Format/KmerOf/ComplementOf/GCof; "
                "non-trivial = the sequence has a valid window and also an invalid letter or a word occurring more than "
                "once; distinct by (sequence, k) or (k, word)")
     ck.assumptions = [
@@ -161,6 +179,10 @@ def run(ck, tier):
         "start are fixed to 'n' for that reason (all letters in the thorough tier)",
         "sequences longer than 400 letters are judged on sampled words and ranges, through the table of window codes "
         "(the lemma that this table yields Occ is part of IndexExact)",
+        "histories of queries: in the model any interleaving of look-ups, Check and single writes by the caller; on the "
+        "real code one fixed history per index - every question, each result overwritten completely (sentinel -7) as "
+        "soon as it has been logged, then every question again. Overwriting more can only corrupt more, so this history "
+        "shows whatever a shorter one would; results are overwritten, not resliced or appended to",
         "an error returned by ForEachKmerOf for a range starting within k-2 letters of the end of the sequence is accepted "
         "(no call-backs are due there); reported as a note",
     ]
@@ -179,6 +201,10 @@ def run(ck, tier):
         fwl = pool.submit(vlib.tlc, "Kmer", "Kmer", None, workers=4, timeout=900,
                           cfg_text=_mc_cfg(0, "{110}", invs="WordLaws",
                                            ks="{2, 3, 4, 5, 6, 7, 8}" if thorough else "{2, 3, 4, 5, 6, 7}"))
+        # the life of an index: Build, then any history of queries and caller writes
+        qcfg = vlib.subst_cfg("Kmer", "KmerQueriesMC.cfg", {"Ks": "{2, 3}"} if thorough else {})
+        fq = pool.submit(vlib.tlc, "Kmer", "KmerQueries", None, cfg_text=qcfg, workers=8 if thorough else 3, timeout=3400)
+        fqn = pool.submit(vlib.tlc, "Kmer", "KmerQueries", "KmerQueriesNeg.cfg", workers=2, timeout=900)
         negs = []
         for variant, expect in (("high_before_increment", ("VisitsExact", "Rolling")), ("inclusive_prefix", ("IndexExact",)),
                                 ("no_mask", ("VisitsExact", "TypeOK"))):
@@ -212,6 +238,17 @@ def run(ck, tier):
             if rn.violated not in expect:
                 raise vlib.Infra("negative control %s not refuted (%s):\n%s" % (variant, rn.violated, rn.out[-1500:]))
             ck.mc("KmerNeg(%s)" % variant, rn, "wrong variant refuted: %s" % rn.violated)
+        rq = fq.result()
+        vlib.tlc_expect_ok(rq, "KmerQueriesMC")
+        ck.mc("KmerQueriesMC", rq, "New, Build, then every history of look-ups, Check and caller writes: all sequences over "
+              "{a,c,t,n,A} of length <= 5, k in %s; every answer is a function of the indexed sequence only"
+              % ("{2,3}" if thorough else "{2}"))
+        rqn = fqn.result()
+        if rqn.violated != "LastAnswerExact" or "<CallerWrites " not in rqn.out:
+            raise vlib.Infra("negative control alias_answers not refuted by a caller's write (%s):\n%s"
+                             % (rqn.violated, rqn.out[-1500:]))
+        ck.mc("KmerQueriesNeg(alias_answers)", rqn, "an answer that aliases the position table: a caller's write changes a "
+              "later answer; refuted: LastAnswerExact")
         if thorough:
             r8 = vlib.tlc("Kmer", "Kmer", None, workers=16, timeout=3400,
                           cfg_text=_mc_cfg(8, "{110}", invs="TypeOK VisitsExact Rolling"))
